@@ -170,7 +170,14 @@ var stablePkgs = map[string]bool{
 // heapStable: heaps whose pre-existing cells are assumed untouched by callees
 // (SSA / go/types objects are never mutated by the analyses). Recorded as an
 // assumption in every evidence file; checked mechanically by `govc scan-stable`.
+// declaredStable: field heaps declared `immutable` in a contract file and checked
+// mechanically (every store to the field targets an object allocated in the same function).
+var declaredStable = map[string]bool{}
+
 func heapStable(name string) bool {
+	if declaredStable[name] {
+		return true
+	}
 	parts := strings.SplitN(name, "|", 3)
 	if len(parts) < 2 {
 		return false
